@@ -90,6 +90,13 @@ def oracle_only_variant(rng, sc: Scenario) -> Scenario:
     kw = {}
     kinds = rng.sample(["midpull", "probe"], rng.choice([1, 1, 2]))
     calls = list(sc.calls)
+    if sc.ra != 0 and any(2 in c.cons or 3 in c.cons for c in calls) and rng.random() < 0.5:
+        kw["warn_error"] = True
+    if rng.random() < 0.25:
+        # the same object called again while the call is still starting up
+        kw["reenter"] = rng.choice(["configure", "start_call", "bs"])
+        if kw["reenter"] == "configure" and sc.managed:
+            kw["reenter"] = "start_call"  # inside a with block configure() runs in __enter__, outside any call
     if "midpull" in kinds and sc.ra != 0:
         k = rng.randrange(len(calls))
         c = calls[k]
@@ -140,6 +147,14 @@ def stale_window_call(sc, log):
         elif in_window and e.startswith("complete"):
             return cno
     return None
+
+
+def reenter_oracle(sc, run):
+    """C16 "calling the object again during an unfinished run raises RuntimeError instead of mixing the two runs" - also while
+    the unfinished run is still in its start-up (inside backend.configure / start_call / the first compute_batch_size)."""
+    if sc.reenter and run.reenter_result is not None and run.reenter_result[0] != "rejected":
+        return [("C16", "overlapping-call-accepted:during-start-up", dict(where=sc.reenter, got=run.reenter_result))]
+    return []
 
 
 def oracle(sc: Scenario, run: ctl.Run, props):
@@ -227,6 +242,8 @@ def oracle(sc: Scenario, run: ctl.Run, props):
                 allowed.add(f"IterBoom({iterfail_id})")
             if timeouts_possible:
                 allowed.add("TimeoutError")
+            if sc.warn_error:
+                allowed.add("UserWarning")  # the escalated early-exit warning of an abandoned generator
             if raised not in allowed:
                 if clean:
                     bad.append(("C01", "unexpected-exception:" + re.sub(r"\d+", "N", raised), dict(call=cno, raised=raised)))
@@ -504,7 +521,7 @@ def explore(ctx, props, n, salt, focus=None, scenarios=None, driver_prop=None):
             res.diverge("event-log", case, dict(at=k, impl=a[max(0, k - 3):k + 3]), dict(model=b[max(0, k - 3):k + 3]))
         stale = stale_window_call(sc, r.log) is not None
         prompt = [(p, sg, d)
-                  for p, sg, d in promptness_oracle(sc, r) if p in props]
+                  for p, sg, d in promptness_oracle(sc, r) + reenter_oracle(sc, r) if p in props]
         for p, sig, detail in oracle(sc, r, props) + prompt:
             res.fail(sig, case, dict(detail=detail, log=line[:1500]))
     res.assumptions = [
@@ -608,7 +625,7 @@ def run_prop(ctx, prop, focuses):
         out.rule = "replay of a bytecode-level pre-emption scenario"
         r = ctl.run_scenario(sc)
         out.evaluations = 1
-        for p, sig, detail in oracle(sc, r, {prop}) + [x for x in promptness_oracle(sc, r) if x[0] == prop]:
+        for p, sig, detail in oracle(sc, r, {prop}) + [x for x in promptness_oracle(sc, r) + reenter_oracle(sc, r) if x[0] == prop]:
             out.fail(sig, sc.to_json(), dict(detail=detail, fired=r.instr_fired, log=" | ".join(r.log)[:1500]))
         return out
     if ctx.replay:
@@ -619,7 +636,7 @@ def run_prop(ctx, prop, focuses):
         instr_sweep(ctx, out, {prop}, 10**9)
         if prop in ("C01", "C09"):
             autobatch_probe(ctx, out, {prop}, 20000, prop)
-        if prop in ("C01", "C04", "C09"):
+        if prop in ("C01", "C04", "C09", "C16"):
             from . import m1_lock
             m1_lock.run_lock_scenarios(ctx, out, prop)
         if prop in ("C01", "C04", "C09"):
@@ -638,7 +655,7 @@ def run_prop(ctx, prop, focuses):
     instr_sweep(ctx, out, {prop}, 150)
     if prop in ("C01", "C09"):
         autobatch_probe(ctx, out, {prop}, 400, prop)
-    if prop in ("C01", "C04", "C09"):
+    if prop in ("C01", "C04", "C09", "C16"):
         from . import m1_lock
         m1_lock.run_lock_scenarios(ctx, out, prop)
     if prop in ("C01", "C04", "C09"):
@@ -696,7 +713,7 @@ def instr_sweep(ctx, res, props, per_base):
                 res.evaluations += 1
                 if r.instr_fired:
                     res.nontrivial.add(("instr", bi, k, how))
-                for p, sig, detail in oracle(sc, r, props) + [x for x in promptness_oracle(sc, r) if x[0] in props]:
+                for p, sig, detail in oracle(sc, r, props) + [x for x in promptness_oracle(sc, r) + reenter_oracle(sc, r) if x[0] in props]:
                     res.fail(sig, sc.to_json(), dict(detail=detail, fired=r.instr_fired, log=" | ".join(r.log)[:1500]))
 
 
